@@ -7,6 +7,11 @@ import Vflow.Proofs.SflowFilter
 `(format, length, body)`; raw packet header records padded to a multiple of 4; extended switch;
 extended router with an IPv4 or IPv6 next hop; counter samples with the counter records laid out
 by `counterLayout`; unknown samples / records as opaque bodies.
+
+Since the F19 repairs the abstract datagram covers every sampled header (any octets, 0 … 1500 of them, under
+any header protocol: the record is reported iff the dissector can break the header down — `dissected`), a
+flow-sample source id with its 24-bit index, and extended-router records of any length (only the two
+lengths of an IPv4 / IPv6 next hop are decoded, the others are skipped like a record of an unknown format).
 -/
 namespace Vflow.Sflow
 open Vflow Vflow.Packet
@@ -24,10 +29,13 @@ def encList {A : Type} (enc : A → Bytes) : List A → Bytes
 /-! ## abstract datagram -/
 
 inductive AFlowRec where
-  /-- raw packet header: header protocol, frame length, stripped, the sampled octets, and what they dissect to -/
-  | raw (proto frameLen stripped : Nat) (hdr : Bytes) (p : Pkt)
+  /-- raw packet header: header protocol, frame length, stripped, and the sampled octets — any octets -/
+  | raw (proto frameLen stripped : Nat) (hdr : Bytes)
   | sw (s : ExtSwitch)
+  /-- extended router with an IPv4 or IPv6 next hop (address type 1 / 2: record length 16 / 28) -/
   | rtr (r : ExtRouter)
+  /-- a record this decoder skips by its declared length: a format it does not know, or an extended-router
+  record (format 1002) of any other length (address type 0 = unknown has no address octets: 12) -/
   | unknown (fmt : Nat) (body : Bytes)
 
 inductive ACounterRec where
@@ -50,7 +58,7 @@ structure ADatagram where
 /-! ## encoders -/
 
 def encFlowRec : AFlowRec → Bytes
-  | .raw proto fl st hdr _ =>
+  | .raw proto fl st hdr =>
     be32 1 ++ be32 (16 + hdr.length + pad hdr.length) ++
       (encFields [4, 4, 4, 4] [proto, fl, st, hdr.length] ++ ((hdr ++ List.replicate (pad hdr.length) 0)))
   | .sw s => be32 1001 ++ be32 16 ++ encFields [4, 4, 4, 4] [s.srcVlan, s.srcPriority, s.dstVlan, s.dstPriority]
@@ -87,12 +95,14 @@ def encodeSflow (d : ADatagram) : Bytes :=
 
 /-! ## well-formedness: values fit their fields, lengths fit 32 bits, header ≤ 1500 octets -/
 
+/-- a raw-header record is well-formed when its four words fit and the sampled header has at most 1500 octets:
+nothing is asked of the octets themselves or of the header protocol (F19a), and the header may be empty -/
 def AFlowRec.WF : AFlowRec → Prop
-  | .raw proto fl st hdr p =>
-    Fits [4, 4, 4, 4] [proto, fl, st, hdr.length] ∧ 0 < hdr.length ∧ hdr.length ≤ 1500 ∧ dissect hdr proto = .ok p
+  | .raw proto fl st hdr => Fits [4, 4, 4, 4] [proto, fl, st, hdr.length] ∧ hdr.length ≤ 1500
   | .sw s => Fits [4, 4, 4, 4] [s.srcVlan, s.srcPriority, s.dstVlan, s.dstPriority]
   | .rtr r => (r.nextHop.length = 4 ∨ r.nextHop.length = 16) ∧ Fits [4, 4] [r.srcMask, r.dstMask]
-  | .unknown fmt body => fmt ≠ 1 ∧ fmt ≠ 1001 ∧ fmt ≠ 1002 ∧ fmt < 256 ^ 4 ∧ body.length < 256 ^ 4
+  | .unknown fmt body => fmt ≠ 1 ∧ fmt ≠ 1001 ∧ (fmt = 1002 → body.length ≠ 16 ∧ body.length ≠ 28) ∧
+      fmt < 256 ^ 4 ∧ body.length < 256 ^ 4
 
 def ACounterRec.WF : ACounterRec → Prop
   | .known fmt vals => ∃ l, counterLayout fmt = some l ∧ Fits (widths l) vals
@@ -113,8 +123,21 @@ def ADatagram.WF (d : ADatagram) : Prop :=
 
 /-! ## expected decode -/
 
+/-- what a sampled header contributes: the packet it dissects to, nothing when the dissector rejects it
+(`dissect` never panics: `Packet.dissect_safe`) -/
+def dissected (hdr : Bytes) (proto : Nat) : Option Pkt :=
+  match dissect hdr proto with
+  | .ok p => some p
+  | _ => none
+
+theorem dissected_ok {hdr : Bytes} {proto : Nat} {p : Pkt} (h : dissect hdr proto = .ok p) :
+    dissected hdr proto = some p := by simp [dissected, h]
+
+theorem dissected_err {hdr : Bytes} {proto : Nat} {e : Err} (h : dissect hdr proto = .err e) :
+    dissected hdr proto = none := by simp [dissected, h]
+
 def expFlowRec : AFlowRec → Option FlowRec
-  | .raw _ _ _ _ p => some (.raw p)
+  | .raw proto _ _ hdr => (dissected hdr proto).map .raw
   | .sw s => some (.sw s)
   | .rtr r => some (.rtr r)
   | .unknown _ _ => none
@@ -124,8 +147,8 @@ def expCounterRec : ACounterRec → Option (Nat × List Nat)
   | .unknown _ _ => none
 
 def expSample : ASample → Option Sample
-  | .flow seq ty _ rate pool drops inp out recs =>
-    some (.flow ⟨seq, ty, rate, pool, drops, inp, out, recs.length, FlowRecs.ofList (recs.map expFlowRec)⟩)
+  | .flow seq ty idx rate pool drops inp out recs =>
+    some (.flow ⟨seq, ty, idx, rate, pool, drops, inp, out, recs.length, FlowRecs.ofList (recs.map expFlowRec)⟩)
   | .counter seq ty idx recs =>
     some (.counter ⟨seq, ty, idx, recs.length, CounterRecs.ofList (recs.map expCounterRec)⟩)
   | .unknown _ _ => none
@@ -177,23 +200,42 @@ theorem rawRead_append (x t : Bytes) (n : Nat) (h : x.length = n) (hn : 0 < n) :
   rw [if_neg this]
   simp
 
+/-- the header octets are read whole, whatever follows — also when there are none and nothing follows -/
+theorem readHdr_append (x t : Bytes) (n : Nat) (h : x.length = n) : readHdr n (x ++ t) = some (x, t) := by
+  unfold readHdr
+  split
+  · rename_i h0
+    have hx : x = [] := List.eq_nil_of_length_eq_zero (by omega)
+    subst hx
+    simp
+  · exact rawRead_append x t n h (by omega)
+
 /-! ## records -/
 
-theorem decodeSampledHeader_enc (proto fl st : Nat) (hdr : Bytes) (p : Pkt) (t : Bytes)
-    (hwf : (AFlowRec.raw proto fl st hdr p).WF) :
+/-- **raw packet header, any octets**: the record (four words, the sampled octets, XDR padding) is consumed
+exactly, whatever the octets are; the result is the packet they dissect to, or nothing -/
+theorem decodeSampledHeader_enc (proto fl st : Nat) (hdr : Bytes) (t : Bytes)
+    (hwf : (AFlowRec.raw proto fl st hdr).WF) :
     decodeSampledHeader (encFields [4, 4, 4, 4] [proto, fl, st, hdr.length] ++
-      ((hdr ++ List.replicate (pad hdr.length) 0) ++ t)) = .ok (p, t) := by
-  obtain ⟨hfit, hpos, hle, hd⟩ := hwf
+      ((hdr ++ List.replicate (pad hdr.length) 0) ++ t)) = .ok (dissected hdr proto, t) := by
+  obtain ⟨hfit, hle⟩ := hwf
   unfold decodeSampledHeader
   rw [readFields_enc _ _ _ hfit]
   simp only
   have h1 : ¬ hdr.length > 1500 := by omega
   simp only [h1, if_false]
   rw [show (4 - hdr.length % 4) % 4 = pad hdr.length from rfl]
-  rw [rawRead_append _ t (hdr.length + pad hdr.length) (by simp) (by omega)]
+  rw [readHdr_append _ t (hdr.length + pad hdr.length) (by simp)]
   simp only
   rw [slice?_le (Nat.zero_le _) (by simp)]
-  simp only [List.drop_zero, Nat.sub_zero, List.take_left' rfl, hd]
+  simp only [List.drop_zero, Nat.sub_zero, List.take_left' rfl]
+  have hs := dissect_safe hdr proto
+  unfold dissected
+  cases hx : dissect hdr proto with
+  | ok p => rfl
+  | err e => rfl
+  | panic => exact absurd hx hs.1
+  | fuel => exact absurd hx hs.2
 
 theorem decodeExtSwitch_enc (s : ExtSwitch) (t : Bytes) (hwf : (AFlowRec.sw s).WF) :
     decodeExtSwitch (encFields [4, 4, 4, 4] [s.srcVlan, s.srcPriority, s.dstVlan, s.dstPriority] ++ t) = .ok (s, t) := by
@@ -219,11 +261,11 @@ theorem decodeExtRouter_enc (r : ExtRouter) (t : Bytes) (hwf : (AFlowRec.rtr r).
 theorem flowRecord_enc (a : AFlowRec) (t : Bytes) (hwf : a.WF) :
     flowRecord (encFlowRec a ++ t) = .ok (expFlowRec a, t) := by
   cases a with
-  | raw proto fl st hdr p =>
+  | raw proto fl st hdr =>
     have hlen : 16 + hdr.length + pad hdr.length < 256 ^ 4 := by
-      have := hwf.2.2.1; simp [pad]; omega
+      have := hwf.2; simp [pad]; omega
     simp only [encFlowRec, flowRecord, List.append_assoc, u32_be32 1 _ (by decide), u32_be32 _ _ hlen, if_true]
-    rw [← List.append_assoc hdr, decodeSampledHeader_enc proto fl st hdr p t hwf]
+    rw [← List.append_assoc hdr, decodeSampledHeader_enc proto fl st hdr t hwf]
     rfl
   | sw s =>
     simp only [encFlowRec, flowRecord, List.append_assoc, u32_be32 1001 _ (by decide), u32_be32 16 _ (by decide),
@@ -233,16 +275,21 @@ theorem flowRecord_enc (a : AFlowRec) (t : Bytes) (hwf : a.WF) :
   | rtr r =>
     have hlen : r.nextHop.length + 12 < 256 ^ 4 := by
       have := hwf.1; omega
+    have hl2 : ¬ (r.nextHop.length + 12 ≠ 16 ∧ r.nextHop.length + 12 ≠ 28) := by
+      have := hwf.1; omega
     have := decodeExtRouter_enc r t hwf
     simp only [List.append_assoc] at this
     simp only [encFlowRec, flowRecord, List.append_assoc, u32_be32 1002 _ (by decide), u32_be32 _ _ hlen,
-      show ¬ (1002 = 1) by decide, show ¬ (1002 = 1001) by decide, if_false, if_true, this]
+      show ¬ (1002 = 1) by decide, show ¬ (1002 = 1001) by decide, if_false, if_true, hl2, this]
     rfl
   | unknown fmt body =>
     obtain ⟨h1, h2, h3, hf, hb⟩ := hwf
     simp only [encFlowRec, flowRecord, List.append_assoc, u32_be32 fmt _ hf, u32_be32 _ _ hb,
-      h1, h2, h3, if_false, List.drop_left' rfl]
-    rfl
+      h1, h2, if_false, List.drop_left' rfl]
+    by_cases h1002 : fmt = 1002
+    · have := h3 h1002
+      simp [h1002, this, expFlowRec]
+    · simp [h1002, expFlowRec]
 
 /-- **counter record round trip**, generic in the layout: every format `counterLayout` knows
 (generic interface, Ethernet, token ring, 100BaseVG, VLAN, processor) is read field by field in layout
@@ -282,15 +329,23 @@ theorem encCounterRec_length_pos (a : ACounterRec) (h : a.WF) : 1 ≤ (encCounte
 theorem encSample_length_pos (a : ASample) : 1 ≤ (encSample a).length := by
   simp [encSample, be32_length]; omega
 
-/-- **flow sample round trip**: the eight header fields (source-id index skipped) and every record -/
+/-- **flow sample round trip**: the nine header fields (source-id type and 24-bit index included) and every record -/
 theorem decodeFlowSample_enc (seq ty idx rate pool drops inp out : Nat) (recs : List AFlowRec) (t : Bytes)
     (hwf : (ASample.flow seq ty idx rate pool drops inp out recs).WF) :
     decodeFlowSample (encSampleBody (.flow seq ty idx rate pool drops inp out recs) ++ t) =
-      .ok (⟨seq, ty, rate, pool, drops, inp, out, recs.length, FlowRecs.ofList (recs.map expFlowRec)⟩, t) := by
-  obtain ⟨h1, _, h2, hr, _⟩ := hwf
+      .ok (⟨seq, ty, idx, rate, pool, drops, inp, out, recs.length, FlowRecs.ofList (recs.map expFlowRec)⟩, t) := by
+  obtain ⟨h1, hidx, h2, hr, _⟩ := hwf
+  have hfit : Fits [4, 1, 3, 4, 4, 4, 4, 4, 4] [seq, ty, idx, rate, pool, drops, inp, out, recs.length] :=
+    ⟨h1.1, h1.2.1, hidx, h2⟩
+  have henc : encFields [4, 1] [seq, ty] ++ (encBE 3 idx ++
+      (encFields [4, 4, 4, 4, 4, 4] [rate, pool, drops, inp, out, recs.length] ++ (encList encFlowRec recs ++ t))) =
+      encFields [4, 1, 3, 4, 4, 4, 4, 4, 4] [seq, ty, idx, rate, pool, drops, inp, out, recs.length] ++
+        (encList encFlowRec recs ++ t) := by
+    simp [encFields, List.append_assoc]
   unfold decodeFlowSample
-  simp only [encSampleBody, List.append_assoc, readFields_enc _ _ _ h1, List.drop_left' (encBE_length 3 idx),
-    readFields_enc _ _ _ h2]
+  simp only [encSampleBody, List.append_assoc]
+  rw [henc, readFields_enc _ _ _ hfit]
+  simp only
   rw [loopN_encList flowRecord encFlowRec expFlowRec AFlowRec.WF flowRecord_enc recs _ t hr
     (by have := encList_length_ge encFlowRec recs (fun a _ => encFlowRec_length_pos a); simp; omega)]
 
